@@ -68,118 +68,215 @@ theorem tiny_le : (2 : ℚ) ^ (-1075 : ℤ) ≤ 1 / 2 ^ 60 := by
 theorem rne_exists (y : ℚ) (hb : |y| ≤ 2 ^ 40) : ∃ r, rne y = some r :=
   Option.isSome_iff_exists.mp (rne_isSome_of_abs_le y (le_trans hb closeBound_ge))
 
-/-- **Bag stamps.** For every binary64 stamp `0 ≤ x < 2³¹`: the header stamp is
-`sec = ⌊x⌋`, `0 ≤ nanosec ≤ 10⁹`, and the stamp read back is a binary64 value `x'` with
-`|x' − x| ≤ 1 ns + x·2⁻⁵³ + 2⁻⁵⁰` and `|x' − x| ≤ 2 ns + 2⁻⁴⁹`. -/
-theorem bag_roundtrip (x : ℚ) (hx : IsF64 x) (h0 : 0 ≤ x) (h31 : x < 2 ^ 31) :
-    ∃ (ns : ℤ) (x' : ℚ), bagSplit x = some (⌊x⌋, ns) ∧ 0 ≤ ns ∧ ns ≤ 10 ^ 9 ∧
-      bagJoin ⌊x⌋ ns = some x' ∧ IsF64 x' ∧
-      |x' - x| ≤ 1 / 10 ^ 9 + x / 2 ^ 53 + 1 / 2 ^ 50 ∧ |x' - x| ≤ 2 / 10 ^ 9 + 1 / 2 ^ 49 := by
+theorem roundHalfEven_spec (g : ℚ) (hg : 0 ≤ g) :
+    |(roundHalfEven g : ℚ) - g| ≤ 1 / 2 ∧ 0 ≤ roundHalfEven g := by
+  have h1 : ((g.floor : ℤ) : ℚ) ≤ g := Int.floor_le g
+  have h2 : g < (g.floor : ℤ) + 1 := Int.lt_floor_add_one g
+  have h0 : 0 ≤ g.floor := Int.floor_nonneg.mpr hg
+  unfold roundHalfEven
+  simp only
+  by_cases c1 : g - ((g.floor : ℤ) : ℚ) < 1 / 2
+  · rw [if_pos c1]; exact ⟨by rw [abs_le]; constructor <;> linarith, h0⟩
+  · rw [if_neg c1]
+    by_cases c2 : 1 / 2 < g - ((g.floor : ℤ) : ℚ)
+    · rw [if_pos c2]
+      exact ⟨by push_cast; rw [abs_le]; constructor <;> linarith, by omega⟩
+    · rw [if_neg c2]
+      have hd : g - ((g.floor : ℤ) : ℚ) = 1 / 2 := le_antisymm (not_lt.mp c2) (not_lt.mp c1)
+      by_cases c3 : g.floor % 2 = 0
+      · rw [if_pos c3]; exact ⟨by rw [abs_le]; constructor <;> linarith, h0⟩
+      · rw [if_neg c3]; exact ⟨by push_cast; rw [abs_le]; constructor <;> linarith, by omega⟩
+
+/-- every binary64 value `≥ 2²¹` is a multiple of `2⁻³¹` -/
+theorem grid31 (z : ℚ) (hz : IsF64 z) (h : (2 : ℚ) ^ 21 ≤ z) : ∃ a : ℤ, z = a * (2 : ℚ) ^ (-31 : ℤ) := by
+  obtain ⟨m, e, hm, -, -, rfl⟩ := hz
+  by_cases he : -31 ≤ e
+  · exact rescale m e (-31) he
+  · exfalso
+    have hpe := two_zpow_pos e
+    have hmq : (m : ℚ) < 2 ^ 53 := by
+      have : m < 2 ^ 53 := lt_of_le_of_lt (le_abs_self m) hm
+      exact_mod_cast this
+    have h2 : (2 : ℚ) ^ e ≤ (2 : ℚ) ^ (-32 : ℤ) := zpow_le_zpow_right₀ (by norm_num) (by omega)
+    have h3 : (m : ℚ) * (2 : ℚ) ^ e < 2 ^ 53 * (2 : ℚ) ^ (-32 : ℤ) := by
+      by_cases hm0 : (m : ℚ) ≤ 0
+      · have : (m : ℚ) * (2 : ℚ) ^ e ≤ 0 := mul_nonpos_of_nonpos_of_nonneg hm0 hpe.le
+        have : (0 : ℚ) < 2 ^ 53 * (2 : ℚ) ^ (-32 : ℤ) := by positivity
+        linarith
+      · push Not at hm0
+        calc (m : ℚ) * (2 : ℚ) ^ e ≤ (m : ℚ) * (2 : ℚ) ^ (-32 : ℤ) := mul_le_mul_of_nonneg_left h2 hm0.le
+          _ < 2 ^ 53 * (2 : ℚ) ^ (-32 : ℤ) := mul_lt_mul_of_pos_right hmq (two_zpow_pos _)
+    have h4 : (2 : ℚ) ^ 53 * (2 : ℚ) ^ (-32 : ℤ) = 2 ^ 21 := by norm_num [zpow_neg]
+    linarith
+
+/-- reading back a header stamp `(s, n)` whose value `s + n·10⁻⁹` is within half a nanosecond
+(plus rounding dust) of the binary64 stamp `x` gives a binary64 value within **one nanosecond** -/
+theorem join_error (x : ℚ) (hx : IsF64 x) (h0 : 0 ≤ x) (h31 : x < 2 ^ 31) (s n : ℤ) (hs0 : 0 ≤ s)
+    (hn0 : 0 ≤ n) (hn9 : n ≤ 10 ^ 9)
+    (hH : |(s : ℚ) + (n : ℚ) / 10 ^ 9 - x| ≤ 1 / (2 * 10 ^ 9) + 2 / 2 ^ 53) :
+    ∃ x', bagJoin s n = some x' ∧ IsF64 x' ∧ |x' - x| ≤ 1 / 10 ^ 9 ∧ |x' - x| ≤ 1 / 10 ^ 9 + 1 / 2 ^ 49 := by
   have ht := tiny_le
   have ht0 := two_zpow_pos (-1075)
   set t : ℚ := (2 : ℚ) ^ (-1075 : ℤ) with htd
-  set s : ℤ := ⌊x⌋ with hs
-  have hs1 : (s : ℚ) ≤ x := Int.floor_le x
-  have hs2 : x < s + 1 := Int.lt_floor_add_one x
-  have hs0 : (0 : ℚ) ≤ s := by exact_mod_cast Int.floor_nonneg.mpr h0
-  set f : ℚ := x - s with hf
-  have hf0 : 0 ≤ f := by linarith
-  have hf1 : f < 1 := by linarith
-  have hrf : rne f = some f := rne_id f (isF64_fract x hx h0)
-  -- g = rne (f * 1e9)
-  obtain ⟨g, hg⟩ := rne_exists (f * 1000000000) (by rw [abs_of_nonneg (by positivity)]; norm_num; nlinarith)
-  have hgerr := rne_err _ _ hg
-  rw [abs_of_nonneg (by positivity : (0 : ℚ) ≤ f * 1000000000)] at hgerr
-  have hg0 : 0 ≤ g := rne_nonneg _ _ (by positivity) hg
-  obtain ⟨hge1, hge2⟩ := abs_le.mp hgerr
-  set ns : ℤ := ⌊g⌋ with hns
-  have hn1 : (ns : ℚ) ≤ g := Int.floor_le g
-  have hn2 : g < ns + 1 := Int.lt_floor_add_one g
-  have hn0 : 0 ≤ ns := Int.floor_nonneg.mpr hg0
-  have hn0q : (0 : ℚ) ≤ ns := by exact_mod_cast hn0
-  have hnle : ns ≤ 10 ^ 9 := by
-    have : (ns : ℚ) < ((10 ^ 9 + 1 : ℤ) : ℚ) := by
-      push_cast
-      have : f * 1000000000 / 2 ^ 53 ≤ 1 := by norm_num; nlinarith
-      nlinarith
-    have : ns < 10 ^ 9 + 1 := by exact_mod_cast this
-    omega
-  have hnleq : (ns : ℚ) ≤ 1000000000 := by exact_mod_cast hnle
-  -- split
-  have hsplit : bagSplit x = some (s, ns) := by
-    unfold bagSplit
-    simp only [floor_eq]
-    rw [← hs, ← hf, hrf]
-    simp only [hg, not_lt.mpr hg0, if_false, ← hns]
-  -- join
+  have hs0q : (0 : ℚ) ≤ s := by exact_mod_cast hs0
+  have hn0q : (0 : ℚ) ≤ n := by exact_mod_cast hn0
+  have hnleq : (n : ℚ) ≤ 1000000000 := by exact_mod_cast hn9
+  obtain ⟨hH1, hH2⟩ := abs_le.mp hH
   have hc := c9_err
   obtain ⟨hc1, hc2⟩ := abs_le.mp hc
   have hc0 : 0 ≤ c9 := by unfold c9; norm_num
-  have hnc : (ns : ℚ) * c9 ≤ 2 := by
+  have hnc : (n : ℚ) * c9 ≤ 2 := by
     have : c9 ≤ 2 / 1000000000 := by unfold c9; norm_num
     nlinarith
-  obtain ⟨p, hp⟩ := rne_exists ((ns : ℚ) * c9) (by rw [abs_of_nonneg (by positivity)]; norm_num; linarith)
+  obtain ⟨p, hp⟩ := rne_exists ((n : ℚ) * c9) (by rw [abs_of_nonneg (by positivity)]; norm_num; linarith)
   have hperr := rne_err _ _ hp
-  rw [abs_of_nonneg (by positivity : (0 : ℚ) ≤ (ns : ℚ) * c9)] at hperr
+  rw [abs_of_nonneg (by positivity : (0 : ℚ) ≤ (n : ℚ) * c9)] at hperr
   have hp0 : 0 ≤ p := rne_nonneg _ _ (by positivity) hp
   obtain ⟨hpe1, hpe2⟩ := abs_le.mp hperr
   have hple : p ≤ 3 := by
-    have : (ns : ℚ) * c9 / 2 ^ 53 ≤ 1 / 2 := by norm_num; linarith
+    have : (n : ℚ) * c9 / 2 ^ 53 ≤ 1 / 2 := by norm_num; linarith
     have : t ≤ 1 / 2 := by linarith [show (1 : ℚ) / 2 ^ 60 ≤ 1 / 2 by norm_num]
     linarith
+  have hsle : (s : ℚ) ≤ 2 ^ 31 + 1 := by
+    have : (0 : ℚ) ≤ (n : ℚ) / 10 ^ 9 := by positivity
+    norm_num at hH2 h31 ⊢; linarith
   obtain ⟨x', hx'⟩ := rne_exists ((s : ℚ) + p) (by
-    rw [abs_of_nonneg (by positivity)]; norm_num at h31 ⊢; linarith)
+    rw [abs_of_nonneg (by positivity)]; norm_num at hsle ⊢; linarith)
   have hnear := rne_nearest _ _ hx'
   have hxerr := rne_err _ _ hx'
   rw [abs_of_nonneg (by positivity : (0 : ℚ) ≤ (s : ℚ) + p)] at hxerr
-  have hjoin : bagJoin s ns = some x' := by
+  have hjoin : bagJoin s n = some x' := by
     unfold bagJoin
     simp only [rne_c9, hp, hx']
-  -- D = |x - (s + p)| = |f - p|
-  have hD : |(s : ℚ) + p - x| ≤ 1 / 10 ^ 9 + 5 / 2 ^ 53 := by
-    have e : (s : ℚ) + p - x = p - f := by rw [hf]; ring
-    rw [e, abs_le]
-    have u1 : f * 1000000000 / 2 ^ 53 ≤ 1000000000 / 2 ^ 53 := by
-      apply div_le_div_of_nonneg_right _ (by positivity); linarith
-    have a1 : (ns : ℚ) ≤ f * 1000000000 + 1000000000 / 2 ^ 53 + t := by linarith
-    have a2 : f * 1000000000 - 1000000000 / 2 ^ 53 - t - 1 ≤ ns := by linarith
-    have b1 : (ns : ℚ) * c9 ≤ (ns : ℚ) * (1 / 1000000000) + 1 / 2 ^ 53 := by
+  -- D = |s + p - x|
+  have hD : |(s : ℚ) + p - x| ≤ 1 / (2 * 10 ^ 9) + 5 / 2 ^ 53 := by
+    have b1 : (n : ℚ) * c9 ≤ (n : ℚ) * (1 / 1000000000) + 1 / 2 ^ 53 := by
       have : c9 ≤ 1 / 1000000000 + 1 / 1000000000 / 2 ^ 53 := by linarith
       have := mul_le_mul_of_nonneg_left this hn0q
-      have : (ns : ℚ) * (1 / 1000000000 / 2 ^ 53) ≤ 1 / 2 ^ 53 := by
+      have : (n : ℚ) * (1 / 1000000000 / 2 ^ 53) ≤ 1 / 2 ^ 53 := by
         have := mul_le_mul_of_nonneg_right hnleq (by norm_num : (0 : ℚ) ≤ 1 / 1000000000 / 2 ^ 53)
         norm_num at this ⊢; linarith
       linarith
-    have b2 : (ns : ℚ) * (1 / 1000000000) - 1 / 2 ^ 53 ≤ (ns : ℚ) * c9 := by
+    have b2 : (n : ℚ) * (1 / 1000000000) - 1 / 2 ^ 53 ≤ (n : ℚ) * c9 := by
       have : 1 / 1000000000 - 1 / 1000000000 / 2 ^ 53 ≤ c9 := by linarith
       have := mul_le_mul_of_nonneg_left this hn0q
-      have : (ns : ℚ) * (1 / 1000000000 / 2 ^ 53) ≤ 1 / 2 ^ 53 := by
+      have : (n : ℚ) * (1 / 1000000000 / 2 ^ 53) ≤ 1 / 2 ^ 53 := by
         have := mul_le_mul_of_nonneg_right hnleq (by norm_num : (0 : ℚ) ≤ 1 / 1000000000 / 2 ^ 53)
         norm_num at this ⊢; linarith
       linarith
-    have d1 : (ns : ℚ) * c9 / 2 ^ 53 ≤ 2 / 2 ^ 53 := div_le_div_of_nonneg_right hnc (by positivity)
+    have d1 : (n : ℚ) * c9 / 2 ^ 53 ≤ 2 / 2 ^ 53 := div_le_div_of_nonneg_right hnc (by positivity)
     have t1 : t ≤ 1 / 2 ^ 60 := ht
+    rw [abs_le]
     constructor
     · norm_num at *; linarith
     · norm_num at *; linarith
-  refine ⟨ns, x', hsplit, hn0, hnle, hjoin, hnear.1, ?_, ?_⟩
-  · -- relative bound
-    have hsp : (s : ℚ) + p ≤ x + 1 := by
-      have := (abs_le.mp hD).2; norm_num at this; linarith
-    have e1 : ((s : ℚ) + p) / 2 ^ 53 ≤ (x + 1) / 2 ^ 53 := div_le_div_of_nonneg_right hsp (by positivity)
-    have tri : |x' - x| ≤ |x' - ((s : ℚ) + p)| + |(s : ℚ) + p - x| := by
-      have : x' - x = (x' - ((s : ℚ) + p)) + ((s : ℚ) + p - x) := by ring
-      rw [this]; exact abs_add_le _ _
-    have t1 : t ≤ 1 / 2 ^ 60 := ht
-    norm_num at *; linarith
-  · have h2 := hnear.2 x hx
+  obtain ⟨hD1, hD2⟩ := abs_le.mp hD
+  have h2D : |x' - x| ≤ 1 / 10 ^ 9 + 10 / 2 ^ 53 := by
+    have h2 := hnear.2 x hx
     have tri : |x' - x| ≤ |(s : ℚ) + p - x'| + |(s : ℚ) + p - x| := by
       have : x' - x = -((s : ℚ) + p - x') + ((s : ℚ) + p - x) := by ring
       rw [this]
       calc _ ≤ |-((s : ℚ) + p - x')| + |(s : ℚ) + p - x| := abs_add_le _ _
         _ = _ := by rw [abs_neg]
     norm_num at *; linarith
+  refine ⟨x', hjoin, hnear.1, ?_, by norm_num at h2D ⊢; linarith⟩
+  by_cases hsmall : x ≤ 4400000
+  · -- relative error of the last rounding
+    have hsp : (s : ℚ) + p ≤ x + 1 := by norm_num at hD2; linarith
+    have e1 : ((s : ℚ) + p) / 2 ^ 53 ≤ (x + 1) / 2 ^ 53 := div_le_div_of_nonneg_right hsp (by positivity)
+    have tri : |x' - x| ≤ |x' - ((s : ℚ) + p)| + |(s : ℚ) + p - x| := by
+      have : x' - x = (x' - ((s : ℚ) + p)) + ((s : ℚ) + p - x) := by ring
+      rw [this]; exact abs_add_le _ _
+    have t1 : t ≤ 1 / 2 ^ 60 := ht
+    norm_num at *; linarith
+  · -- both values are multiples of 2⁻³¹; the difference is below three steps
+    push Not at hsmall
+    have hx21 : (2 : ℚ) ^ 21 ≤ x := by norm_num; linarith
+    have hx'21 : (2 : ℚ) ^ 21 ≤ x' := by
+      have := (abs_le.mp h2D).1; norm_num at this ⊢; linarith
+    obtain ⟨a, ha⟩ := grid31 x hx hx21
+    obtain ⟨a', ha'⟩ := grid31 x' hnear.1 hx'21
+    have hG : (2 : ℚ) ^ (-31 : ℤ) = 1 / 2147483648 := by norm_num [zpow_neg]
+    rw [ha, ha', hG] at h2D ⊢
+    have hdiff : ((a' : ℚ) * (1 / 2147483648) - (a : ℚ) * (1 / 2147483648)) = ((a' - a : ℤ) : ℚ) * (1 / 2147483648) := by
+      push_cast; ring
+    rw [hdiff, abs_mul, abs_of_pos (by norm_num : (0 : ℚ) < 1 / 2147483648)] at h2D ⊢
+    obtain ⟨J, hJ⟩ : ∃ J : ℚ, J = |((a' - a : ℤ) : ℚ)| := ⟨_, rfl⟩
+    rw [← hJ] at h2D ⊢
+    have hj : J ≤ 2 := by
+      by_contra hcon
+      push Not at hcon
+      have h3 : (3 : ℚ) ≤ J := by
+        rw [hJ]
+        have hlt : (2 : ℚ) < |((a' - a : ℤ) : ℚ)| := by rw [← hJ]; exact hcon
+        have : (2 : ℤ) < |a' - a| := by exact_mod_cast hlt
+        have : (3 : ℤ) ≤ |a' - a| := by omega
+        exact_mod_cast this
+      norm_num at h2D; linarith
+    norm_num; linarith
 
+/-- **Bag stamps (repaired code).** For every binary64 stamp `0 ≤ x < 2³¹` the header stamp
+`(sec, nanosec)` has `0 ≤ nanosec < 10⁹`, `sec = ⌊x⌋` (or `⌊x⌋ + 1` with `nanosec = 0`: the
+carry), represents `x` to within half a nanosecond (plus 2⁻⁵² s rounding dust of the product), and
+the stamp read back is a binary64 value `x'` with `|x' − x| ≤ 1 ns`. -/
+theorem bag_roundtrip (x : ℚ) (hx : IsF64 x) (h0 : 0 ≤ x) (h31 : x < 2 ^ 31) :
+    ∃ (sec ns : ℤ) (x' : ℚ), bagSplit x = some (sec, ns) ∧ 0 ≤ ns ∧ ns < 10 ^ 9 ∧
+      (sec = ⌊x⌋ ∨ (sec = ⌊x⌋ + 1 ∧ ns = 0)) ∧
+      |(sec : ℚ) + (ns : ℚ) / 10 ^ 9 - x| ≤ 1 / (2 * 10 ^ 9) + 2 / 2 ^ 53 ∧
+      bagJoin sec ns = some x' ∧ IsF64 x' ∧ |x' - x| ≤ 1 / 10 ^ 9 ∧ |x' - x| ≤ 1 / 10 ^ 9 + 1 / 2 ^ 49 := by
+  have ht := tiny_le
+  have ht0 := two_zpow_pos (-1075)
+  set t : ℚ := (2 : ℚ) ^ (-1075 : ℤ) with htd
+  set s : ℤ := ⌊x⌋ with hs
+  have hs1 : (s : ℚ) ≤ x := Int.floor_le x
+  have hs2 : x < s + 1 := Int.lt_floor_add_one x
+  have hs0 : 0 ≤ s := Int.floor_nonneg.mpr h0
+  have hs0q : (0 : ℚ) ≤ s := by exact_mod_cast hs0
+  set f : ℚ := x - s with hf
+  have hf0 : 0 ≤ f := by linarith
+  have hf1 : f < 1 := by linarith
+  have hrf : rne f = some f := rne_id f (isF64_fract x hx h0)
+  obtain ⟨g, hg⟩ := rne_exists (f * 1000000000) (by rw [abs_of_nonneg (by positivity)]; norm_num; nlinarith)
+  have hgerr := rne_err _ _ hg
+  rw [abs_of_nonneg (by positivity : (0 : ℚ) ≤ f * 1000000000)] at hgerr
+  have hg0 : 0 ≤ g := rne_nonneg _ _ (by positivity) hg
+  obtain ⟨hge1, hge2⟩ := abs_le.mp hgerr
+  obtain ⟨hr, hr0⟩ := roundHalfEven_spec g hg0
+  set ns : ℤ := roundHalfEven g with hns
+  obtain ⟨hr1, hr2⟩ := abs_le.mp hr
+  have hu : f * 1000000000 / 2 ^ 53 ≤ 1000000000 / 2 ^ 53 := by
+    apply div_le_div_of_nonneg_right _ (by positivity); linarith
+  have hnle : ns ≤ 10 ^ 9 := by
+    have : (ns : ℚ) < ((10 ^ 9 + 1 : ℤ) : ℚ) := by
+      push_cast; norm_num at hu ⊢; nlinarith
+    have : ns < 10 ^ 9 + 1 := by exact_mod_cast this
+    omega
+  have hval : |(s : ℚ) + (ns : ℚ) / 10 ^ 9 - x| ≤ 1 / (2 * 10 ^ 9) + 2 / 2 ^ 53 := by
+    have e : (s : ℚ) + (ns : ℚ) / 10 ^ 9 - x = ((ns : ℚ) - f * 1000000000) / 10 ^ 9 := by
+      rw [hf]; field_simp; ring
+    rw [e, abs_div, abs_of_pos (by positivity : (0 : ℚ) < 10 ^ 9), div_le_iff₀ (by positivity)]
+    rw [abs_le]
+    have t1 : t ≤ 1 / 2 ^ 60 := ht
+    constructor
+    · norm_num at *; linarith
+    · norm_num at *; linarith
+  have hsplit : bagSplit x = some (if ns = 1000000000 then (s + 1, 0) else (s, ns)) := by
+    unfold bagSplit
+    simp only [floor_eq]
+    rw [← hs, ← hf, hrf]
+    simp only [hg, ← hns]
+  by_cases hcar : ns = 1000000000
+  · have hH : |((s + 1 : ℤ) : ℚ) + ((0 : ℤ) : ℚ) / 10 ^ 9 - x| ≤ 1 / (2 * 10 ^ 9) + 2 / 2 ^ 53 := by
+      have : ((s + 1 : ℤ) : ℚ) + ((0 : ℤ) : ℚ) / 10 ^ 9 - x = (s : ℚ) + (ns : ℚ) / 10 ^ 9 - x := by
+        rw [hcar]; push_cast; norm_num
+      rw [this]; exact hval
+    obtain ⟨x', h1, h2, h3, h4⟩ := join_error x hx h0 h31 (s + 1) 0 (by omega) (le_refl _) (by norm_num) hH
+    exact ⟨s + 1, 0, x', by rw [hsplit, if_pos hcar], le_refl _, by norm_num, Or.inr ⟨rfl, rfl⟩, hH, h1, h2, h3, h4⟩
+  · have hlt : ns < 10 ^ 9 := by
+      have : ns ≠ 10 ^ 9 := by simpa using hcar
+      omega
+    obtain ⟨x', h1, h2, h3, h4⟩ := join_error x hx h0 h31 s ns hs0 hr0 hnle hval
+    exact ⟨s, ns, x', by rw [hsplit, if_neg hcar], hr0, hlt, Or.inl rfl, hval, h1, h2, h3, h4⟩
 
 /-- around a normalised binary64 value `x = m·2^e` (`2⁵² ≤ m`) every other binary64 value is at
 least `2^(e−1)` away -/
@@ -215,25 +312,24 @@ theorem f64_gap (m e : ℤ) (hm : 2 ^ 52 ≤ m) (z : ℚ) (hz : IsF64 z)
     rw [abs_sub_comm, abs_of_nonneg (by have := two_zpow_pos (e - 1); linarith)]
     exact this
 
-/-- Stamps whose binary64 spacing is coarser than 4 ns (`2^(e−1) > 2 ns`, i.e. all stamps
-`≥ 2²⁵ s ≈ 388 days`, epoch stamps in particular) are read back **identically**. -/
+/-- Stamps whose binary64 spacing exceeds 2 ns (`2^(e−1) > 1 ns + 2⁻⁴⁹`, i.e. all stamps
+`≥ 2²⁴ s ≈ 194 days`, epoch stamps in particular) are read back **identically**. -/
 theorem bag_exact_of_coarse (m e : ℤ) (hm : 2 ^ 52 ≤ m) (hm' : m < 2 ^ 53) (he1 : -1074 ≤ e) (he2 : e ≤ 971)
-    (h31 : (m : ℚ) * (2 : ℚ) ^ e < 2 ^ 31) (hgap : 2 / 10 ^ 9 + 1 / 2 ^ 49 < (2 : ℚ) ^ (e - 1)) :
-    ∃ ns : ℤ, bagSplit ((m : ℚ) * (2 : ℚ) ^ e) = some (⌊(m : ℚ) * (2 : ℚ) ^ e⌋, ns) ∧
-      bagJoin ⌊(m : ℚ) * (2 : ℚ) ^ e⌋ ns = some ((m : ℚ) * (2 : ℚ) ^ e) := by
+    (h31 : (m : ℚ) * (2 : ℚ) ^ e < 2 ^ 31) (hgap : 1 / 10 ^ 9 + 1 / 2 ^ 49 < (2 : ℚ) ^ (e - 1)) :
+    ∃ sec ns : ℤ, bagSplit ((m : ℚ) * (2 : ℚ) ^ e) = some (sec, ns) ∧
+      bagJoin sec ns = some ((m : ℚ) * (2 : ℚ) ^ e) := by
   have hm0 : (0 : ℚ) ≤ m := by
     have : (0 : ℤ) ≤ m := by omega
     exact_mod_cast this
   have hx : IsF64 ((m : ℚ) * (2 : ℚ) ^ e) :=
     ⟨m, e, by rw [abs_of_nonneg (by omega)]; exact hm', he1, he2, rfl⟩
   have h0 : (0 : ℚ) ≤ (m : ℚ) * (2 : ℚ) ^ e := mul_nonneg hm0 (two_zpow_pos e).le
-  obtain ⟨ns, x', h1, -, -, h2, h3, -, h5⟩ := bag_roundtrip _ hx h0 h31
-  refine ⟨ns, h1, ?_⟩
+  obtain ⟨sec, ns, x', h1, -, -, -, -, h2, h3, -, h5⟩ := bag_roundtrip _ hx h0 h31
+  refine ⟨sec, ns, h1, ?_⟩
   have : x' = (m : ℚ) * (2 : ℚ) ^ e := by
     by_contra hne
     have := f64_gap m e hm x' h3 hne
     linarith
   rw [h2, this]
-
 
 end Evo.F64
